@@ -28,6 +28,7 @@ const (
 
 // Ex is one exemplar as plain values.
 type Ex struct {
+	Pairs  [][2]string // sorted by name
 	Labels string
 	Value  float64
 	HasTs  bool
@@ -111,7 +112,9 @@ func ReadAll(p textparse.Parser, o ReadOpts) (out []Entry, err error) {
 				if !p.Exemplar(&ex) {
 					break
 				}
-				en.Ex = append(en.Ex, Ex{Labels: ex.Labels.String(), Value: ex.Value, HasTs: ex.HasTs, Ts: ex.Ts})
+				x := Ex{Labels: ex.Labels.String(), Value: ex.Value, HasTs: ex.HasTs, Ts: ex.Ts}
+				ex.Labels.Range(func(l labels.Label) { x.Pairs = append(x.Pairs, [2]string{l.Name, l.Value}) })
+				en.Ex = append(en.Ex, x)
 			}
 		case textparse.EntryHelp:
 			n, t := p.Help()
